@@ -2,13 +2,16 @@ package c20
 
 import (
 	"bufio"
+	"bytes"
 	"encoding/hex"
 	"encoding/json"
 	"fmt"
+	"math/big"
 	"math/rand"
 	"os"
 	"reflect"
 	"sort"
+	"strings"
 
 	"verifharness/internal/ev"
 )
@@ -145,6 +148,48 @@ func innerRoundTrip(h *Handler, p any) ev.M {
 	return ev.M{"err": "", "back": back}
 }
 
+// encoderValueFor looks for a value whose encoder text is exactly doc. Candidates: the value the decoder
+// produced (if any) and, for the numeral / hex families, the value the document spells under the loose reading.
+// Each candidate is built and encoded with the real MarshalJSON; only byte equality of the text counts.
+func encoderValueFor(h *Handler, doc []byte, back any, ok bool) (any, bool) {
+	var cands []any
+	if ok {
+		cands = append(cands, back)
+	}
+	inner := doc
+	if len(doc) >= 2 && doc[0] == '"' && doc[len(doc)-1] == '"' {
+		inner = doc[1 : len(doc)-1]
+	}
+	switch h.TD.T {
+	case "uint", "int", "varuint", "grams", "signedcoins":
+		if z, good := new(big.Int).SetString(string(inner), 10); good && z.String() == string(inner) {
+			cands = append(cands, z.String())
+		}
+	case "bits", "tonbits256", "tlint256":
+		if len(inner) < len(doc) {
+			if _, err := hex.DecodeString(string(inner)); err == nil {
+				cands = append(cands, strings.ToLower(string(inner)))
+			}
+		}
+	}
+	for _, c := range cands {
+		c = norm(c)
+		found := func() bool {
+			defer func() { recover() }()
+			p, err := h.Build(c)
+			if err != nil {
+				return false
+			}
+			text, errc, pan := marshalRaw(p)
+			return pan == "" && errc == "" && bytes.Equal(text, doc)
+		}()
+		if found {
+			return c, true
+		}
+	}
+	return nil, false
+}
+
 func innerDecode(h *Handler, doc []byte) ev.M {
 	p, errc, pan := unmarshal(h, doc, false)
 	if pan != "" {
@@ -188,6 +233,9 @@ func decode(w *ev.Writer, h *Handler, doc []byte, direct bool, extra ev.M) {
 	if errc != "" {
 		m["res"] = "err"
 		m["back"] = ""
+		if v, found := encoderValueFor(h, doc, nil, false); found && !direct {
+			m["encof"] = v
+		}
 		w.Emit(m)
 		return
 	}
@@ -201,6 +249,9 @@ func decode(w *ev.Writer, h *Handler, doc []byte, direct bool, extra ev.M) {
 	}
 	m["res"] = "ok"
 	m["back"] = back
+	if v, found := encoderValueFor(h, doc, back, true); found && !direct {
+		m["encof"] = v
+	}
 	w.Emit(m)
 }
 
@@ -373,8 +424,8 @@ func Drive(w *ev.Writer, o Opts) error {
 			nval = 400
 		}
 		if thorough {
-			nval *= 12
-			nseed = 6
+			nval *= 80
+			nseed = 12
 		}
 		w.Emit(ev.M{"k": "Reset", "name": h.Name, "part": "rt"})
 		var texts [][]byte
@@ -472,7 +523,7 @@ func Replay(in string, w *ev.Writer, shard, shards int) error {
 				return fmt.Errorf("vector %d: bad doc hex", n)
 			}
 			extra["mut"] = "bad"
-			decode(w, h, doc, false, extra)
+			decode(w, h, doc, num(v["direct"]) == 1, extra)
 		default:
 			return fmt.Errorf("vector %d: unknown kind %v", n, v["k"])
 		}
